@@ -193,18 +193,55 @@ class InjectedInterrupt(KeyboardInterrupt):
     """A fault that is not an Exception subclass (what Ctrl-C during a simulation raises)."""
 
 
+class InjectedValueError(ValueError):
+    """A fault of a class that 'robust' code is tempted to swallow."""
+
+
+class InjectedArithmetic(ZeroDivisionError):
+    """Same, arithmetic family."""
+
+
+class InjectedTwoArgs(Exception):
+    """A user exception whose constructor takes two required arguments (cannot be rebuilt from a message)."""
+
+    def __init__(self, code, params):
+        super().__init__(code, params)
+        self.code, self.params = code, params
+
+
+FAULT_KINDS = {"plain": InjectedFault, "value": InjectedValueError, "arith": InjectedArithmetic, "twoargs": InjectedTwoArgs, "interrupt": None}
+RAISED = []     # the very instances raised in this process (identity is part of "propagates that exception")
+
+
+def make_fault(kind, msg):
+    if kind == "interrupt":
+        e = InjectedInterrupt(msg)
+    elif kind == "twoargs":
+        e = InjectedTwoArgs(42, msg)
+    else:
+        e = FAULT_KINDS[kind](msg)
+    RAISED.append(e)
+    return e
+
+
+INJECTED = (InjectedFault, InjectedInterrupt, InjectedValueError, InjectedArithmetic, InjectedTwoArgs)
+
+
 class FailAtCall:
     """Witness model that raises InjectedFault at its k-th invocation (counter in this process: n_jobs=1)."""
 
-    def __init__(self, D, k, exc=None):
+    def __init__(self, D, k, exc=None, kind=None):
         self.D, self.k, self.calls = D, k, 0
         self.exc = exc or InjectedFault
+        self.kind = kind
         self.__name__ = WITNESS[("plain", D)].__name__
 
     def __call__(self, theta, N, seed):
         i = self.calls
         self.calls += 1
         if i == self.k:
+            if self.kind is not None:
+                raise make_fault(self.kind, f"model call {i}")
             raise self.exc(f"model call {i}")
         return _witness(theta, N, seed, self.D)
 
